@@ -136,6 +136,11 @@ pub fn check_loop(case: &LoopCase, out: &LoopOutcome) -> Vec<Finding> {
 
     // ---- per-thread sample structure (C01 counts, C02 timed-section purity)
     let counters = (case.input_counters & 15).count_ones() as usize;
+    // A constant counter given after the input counter of the same kind replaces it: whether the replaced
+    // closure is still shown the inputs is not stated (0 or 1 times per input); every other registered
+    // input counter sees every input exactly once.
+    let overridden = |kind: u64| case.counter_after_input && case.has_inputs() && case.bencher_counters.iter().any(|c| c.0 as u64 == kind) && input_counter_registered(case.input_counters, kind);
+    let counters_min = counters - [0u64, 1, 2, 3].iter().filter(|&&k| overridden(k)).count();
     for tr in &traces {
         for (k, sec) in tr.sections.iter().enumerate() {
             let calls = sec.calls();
@@ -181,7 +186,7 @@ pub fn check_loop(case: &LoopCase, out: &LoopOutcome) -> Vec<Finding> {
                 }
                 // every input shown once to every input counter, before the start
                 let counts: Vec<(u64, u64)> = sec.pre.iter().filter(|(_, e)| e.kind == Kind::Count).map(|(_, e)| (e.a, e.b)).collect();
-                if counts.len() != s * counters {
+                if counts.len() > s * counters || counts.len() < s * counters_min {
                     finding(&mut f, "C01", "count-count", format!("{}: thread {} sample {k}: {} counter invocations for {} inputs x {} input counters", case.describe(), tr.thread, counts.len(), s, counters));
                 } else if !case.input_is_zst() {
                     let mut seen: BTreeMap<(u64, u64), u32> = BTreeMap::new();
@@ -192,7 +197,7 @@ pub fn check_loop(case: &LoopCase, out: &LoopOutcome) -> Vec<Finding> {
                         for kind in [0u64, 1, 2, 3] {
                             let registered = input_counter_registered(case.input_counters, kind);
                             let n = seen.get(&(*id, kind)).copied().unwrap_or(0);
-                            if n != registered as u32 {
+                            if n != registered as u32 && !(overridden(kind) && n == 0) {
                                 finding(&mut f, "C01", "count-per-input", format!("{}: thread {} sample {k}: input {id} shown {n} times to counter kind {kind}", case.describe(), tr.thread));
                             }
                         }
